@@ -508,6 +508,25 @@ class Runner:
     def _witness_models(self, ctx, extra=None):
         s = ctx.solver
         k = self.job.lattice
+        if ctx.uf_apps:
+            # uninterpreted exp/log/sqrt values in a model need not be the true ones: prefer a witness in which every
+            # application's argument sits on an anchor point, where the axioms pin the exact value
+            s.push()
+            try:
+                if extra is not None:
+                    s.add(extra)
+                for nm, apps in ctx.uf_apps.items():
+                    anchors = [a for a, _ in S._ANCHORS.get(nm, ())]
+                    if not anchors:
+                        continue
+                    for arg, res in apps:
+                        s.add(z3.Or(*[arg == z3.RealVal(a) for a in anchors]))
+                s.set("timeout", 10000)
+                if s.check() == z3.sat:
+                    yield s.model(), False
+            finally:
+                s.set("timeout", self.job.solver_timeout_ms)
+                s.pop()
         if k:
             s.push()
             try:
@@ -656,6 +675,8 @@ class Runner:
         for (n1, v1), (n2, v2) in zip(A.obs, AC.obs):
             if n1 != n2:
                 return "observation order %s vs %s" % (n1, n2)
+            if _has_uf(v1):
+                continue        # value depends on an uninterpreted transcendental: the model's function values need not be the true ones
             c1 = concretize(v1, model)
             if not _close(c1, v2):
                 return "%s: symbolic %r vs real %r" % (n1, c1, v2)
@@ -688,6 +709,30 @@ class Runner:
         self.res.leftover = [tuple(p) for p in left]
         self.res.wall = time.time() - t0
         return self.res
+
+
+def _expr_has_uf(e, seen):
+    if e.get_id() in seen:
+        return False
+    seen.add(e.get_id())
+    if z3.is_app(e):
+        d = e.decl()
+        if d.kind() == z3.Z3_OP_UNINTERPRETED and e.num_args() > 0:
+            return True
+        for ch in e.children():
+            if _expr_has_uf(ch, seen):
+                return True
+    return False
+
+
+def _has_uf(v):
+    if isinstance(v, (SymNum, SymBool)):
+        return _expr_has_uf(v.e, set())
+    if isinstance(v, SymArray):
+        return any(_has_uf(x) for x in v.view(np.ndarray).flat)
+    if isinstance(v, (list, tuple)):
+        return any(_has_uf(x) for x in v)
+    return False
 
 
 def _copy_inputs(x):
